@@ -139,6 +139,7 @@ func mutate(t *rapid.T, text string) (string, string) {
 		rs := []rune(out[i])
 		at := rapid.IntRange(0, len(rs)).Draw(t, "runeat")
 		ch := gen.Pick(t, "unichar", []string{
+			"0", "1", "7", "9", "_", "a", "Z", "-", ".", // ASCII characters that are legal elsewhere ($1, @7, a.-b, 1a ...)
 			"\u0663", "\u0967", "\uff13", "\U0001d7d8", "\u00b2", "\u00bd", "\u2167", // digits and numbers (Nd, No, Nl)
 			"\u00e9", "\u00c9", "\u00aa", "\u03b1", "\u65e5", "\u02b0", "\uff41", "\u0131", "\u212a", // letters (Ll, Lu, Lo, Lm; fullwidth a, dotless i, Kelvin sign)
 			"\u0301", "\u20e3", "\u203f", "\uff3f", // marks and connector punctuation
